@@ -22,6 +22,7 @@ import (
 	"time"
 
 	"github.com/cosmos/iavl"
+	idb "github.com/cosmos/iavl/db"
 	"github.com/cosmos/iavl/internal/vrt"
 	"github.com/cosmos/iavl/verifcheck/vstore"
 )
@@ -761,6 +762,123 @@ func harnesses() []harness {
 				return strings.Join(append(append(rw.lines, rr.lines...), re.lines...), "; ")
 			}
 		}},
+		{"H13 (bundled MemDB backend under the scheduler) writer(Set,Remove,Set,Set,SaveVersion) || reader(GetImmutable(latest): Iterator, Get)", func(cfg c06Cfg) ([]func(), func() string) {
+			// The store is the real db.MemDB, rebuilt against the shim: its RWMutex, the traversal goroutine of every
+			// iterator and the iterator channel are scheduled by the explorer (look-ahead buffer configured down to 1).
+			// An open MemDB iterator is a snapshot: it holds the read lock until its traversal has ended.
+			mdb := idb.NewMemDB()
+			open := func() *iavl.MutableTree {
+				t := iavl.NewMutableTree(mdb, cfg.Cache, !cfg.Fast, iavl.NewNopLogger())
+				if _, err := t.Load(); err != nil {
+					panic(err)
+				}
+				return t
+			}
+			must := func(err error) {
+				if err != nil {
+					panic(err)
+				}
+			}
+			t := open()
+			keys := []string{"a", "b", "c", "d", "e", "f", "g", "h", "i"}
+			for _, k := range keys[:8] {
+				_, err := t.Set([]byte(k), []byte("1"))
+				must(err)
+			}
+			_, _, err := t.SaveVersion()
+			must(err)
+			_, err = t.Set([]byte("b"), []byte("2"))
+			must(err)
+			_, _, err = t.SaveVersion()
+			must(err)
+			_, err = t.Set([]byte("c"), []byte("3"))
+			must(err)
+			_, _, err = t.Remove([]byte("d"))
+			must(err)
+			_, _, err = t.SaveVersion()
+			must(err)
+			if cfg.Cold {
+				must(t.Close())
+				t = open()
+			}
+			v3 := map[string]string{"a": "1", "b": "2", "c": "3", "e": "1", "f": "1", "g": "1", "h": "1"}
+			v4 := map[string]string{"a": "9", "b": "2", "c": "3", "e": "1", "f": "1", "h": "9", "i": "9"}
+			var rw, rr rec
+			writer := func() {
+				if _, err := t.Set([]byte("a"), []byte("9")); err != nil {
+					rw.add("writer: Set(a): %v", err)
+				}
+				if _, ok, err := t.Remove([]byte("g")); err != nil || !ok {
+					rw.add("writer: Remove(g) = %v, %v", ok, err)
+				}
+				if _, err := t.Set([]byte("h"), []byte("9")); err != nil {
+					rw.add("writer: Set(h): %v", err)
+				}
+				if _, err := t.Set([]byte("i"), []byte("9")); err != nil {
+					rw.add("writer: Set(i): %v", err)
+				}
+				if _, v, err := t.SaveVersion(); err != nil || v != 4 {
+					rw.add("writer: SaveVersion = %d, %v", v, err)
+				}
+			}
+			reader := func() {
+				lv, err := t.GetLatestVersion()
+				if err != nil {
+					rr.add("reader GetLatestVersion: %v", err)
+					return
+				}
+				it, err := t.GetImmutable(lv)
+				if err != nil {
+					rr.add("reader GetImmutable(%d): %v", lv, err)
+					return
+				}
+				observe("reader-got-v%d", it.Version())
+				content := v3
+				if it.Version() == 4 {
+					content = v4
+				} else if it.Version() != 3 {
+					rr.add("reader got version %d", it.Version())
+					return
+				}
+				all, err := iterAll(it)
+				switch {
+				case err != nil:
+					rr.add("reader v%d scan: error %v", it.Version(), err)
+				case sameMap(all, content):
+					observe("scan=v%d", it.Version())
+				case it.Version() == 3 && sameMap(all, v4):
+					// the known finding: the whole iteration is served from the index of the next version
+					observe("scan=v4-as-v3")
+					rr.add("reader v3 iteration = %v (err %v), version content %v", all, err, content)
+				default:
+					rr.add("reader v%d scan is a MIXTURE of two versions (an open backend iterator is not a snapshot): %v, version 3 is %v, version 4 is %v", it.Version(), all, v3, v4)
+				}
+				v, err := it.Get([]byte("h"))
+				expectGet(&rr, fmt.Sprintf("reader v%d.Get(h)", it.Version()), v, err, content, "h")
+			}
+			return []func(){writer, reader}, func() string {
+				var re rec
+				for _, vc := range []struct {
+					ver     int64
+					content map[string]string
+				}{{3, v3}, {4, v4}} {
+					it, err := t.GetImmutable(vc.ver)
+					if err != nil {
+						re.add("epilogue: GetImmutable(%d): %v", vc.ver, err)
+						continue
+					}
+					for _, k := range keys {
+						v, err := it.Get([]byte(k))
+						expectGet(&re, fmt.Sprintf("epilogue v%d.Get(%s)", vc.ver, k), v, err, vc.content, k)
+					}
+					all, err := iterAll(it)
+					if err != nil || !sameMap(all, vc.content) {
+						re.add("epilogue v%d iteration = %v (err %v), version content %v", vc.ver, all, err, vc.content)
+					}
+				}
+				return strings.Join(append(append(rw.lines, rr.lines...), re.lines...), "; ")
+			}
+		}},
 	}
 }
 
@@ -1024,6 +1142,10 @@ func init() {
 			}
 			if (strings.HasPrefix(hs[hi].name, "H8") || strings.HasPrefix(hs[hi].name, "H11")) && (os.Getenv("VERIF_H4") != "1" || os.Getenv("VERIF_H5") != "1") {
 				skipped = append(skipped, hs[hi].name+": the export.go / nodedb.go rewrites did not apply to this tree")
+				continue
+			}
+			if strings.HasPrefix(hs[hi].name, "H13") && os.Getenv("VERIF_H13") != "1" {
+				skipped = append(skipped, hs[hi].name+": the db/memdb.go rewrite did not apply to this tree")
 				continue
 			}
 			if strings.HasPrefix(hs[hi].name, "H5") && os.Getenv("VERIF_H5") != "1" {
